@@ -122,3 +122,36 @@ impl BitSink for MinimalSink {
         Ok(())
     }
 }
+
+/// Counts bits only (O(1) `write_zeros`), so that bit counts above 2^32 can be compared without
+/// allocating the bits.
+#[derive(Clone, Debug, Default)]
+pub struct CountSink {
+    pub bits: u128,
+}
+
+impl BitSink for CountSink {
+    type Error = SinkFail;
+
+    fn align_to_byte(&mut self) -> Result<usize, Self::Error> {
+        let pad = ((8 - self.bits % 8) % 8) as usize;
+        self.bits += pad as u128;
+        Ok(pad)
+    }
+    fn write_msbs<T: Bits>(&mut self, _val: T, n: usize) -> Result<(), Self::Error> {
+        self.bits += n as u128;
+        Ok(())
+    }
+    fn write_lsbs<T: Bits>(&mut self, _val: T, n: usize) -> Result<(), Self::Error> {
+        self.bits += n as u128;
+        Ok(())
+    }
+    fn write<T: Bits>(&mut self, _val: T) -> Result<(), Self::Error> {
+        self.bits += (std::mem::size_of::<T>() * 8) as u128;
+        Ok(())
+    }
+    fn write_zeros(&mut self, n: usize) -> Result<(), Self::Error> {
+        self.bits += n as u128;
+        Ok(())
+    }
+}
